@@ -30,7 +30,8 @@ RT_ENV = 1e-10  # across interpreters / hash seeds / BLAS thread counts
 
 TENANT_VARIANTS = [
     {"zoo": "Z1"}, {"zoo": "Z2"}, {"zoo": "Z3"}, {"zoo": "Z3", "right": True}, {"zoo": "Z4"}, {"zoo": "Z5"},
-    {"zoo": "Z6"}, {"zoo": "Z6", "relief": True}, {"zoo": "Z7"}, {"zoo": "Z8"}, {"zoo": "Z8", "wave": True, "relief": True},
+    {"zoo": "Z6"}, {"zoo": "Z6", "relief": True}, {"zoo": "Z6", "exact": True}, {"zoo": "Z7"}, {"zoo": "Z7", "exact": True},
+    {"zoo": "Z8"}, {"zoo": "Z8", "wave": True, "relief": True}, {"zoo": "Z8", "exact": True}, {"zoo": "Z5", "sym": False},
     {"zoo": "Z9"}, {"zoo": "Z10"}, {"zoo": "Z11", "compressible": True}, {"zoo": "Z11", "ground": True},
     {"zoo": "Z12", "wingbox": False}, {"zoo": "Z13"}, {"zoo": "Z14"},
 ]
@@ -216,6 +217,45 @@ def _warn_surface_key():
     return _stage_runner(build)
 
 
+def _warn_surface_key_second_problem():
+    """Two Problems, two different dict objects, the same unknown key: the second must warn as well."""
+    first = _warn_surface_key()
+    second = _warn_surface_key()
+    second["warnings_first"] = first["warnings"]
+    return second
+
+
+def _warn_key_added_to_reused_dict():
+    """A dict that already went through one valid set-up gets an unknown key and is used again."""
+    import openmdao.api as om
+    from openaerostruct.geometry.geometry_group import Geometry
+
+    md, mesh, _ = zoo._gen_mesh("rect", 2, 5, True)
+    s = zoo._aero_surface("wing", mesh, True, np.zeros(2))
+
+    def build_valid():
+        prob = om.Problem(reports=False)
+        prob.model.add_subsystem("wing", Geometry(surface=s))
+        return prob
+
+    first = _stage_runner(build_valid)
+
+    def build_bad():
+        s["colour"] = "blue"
+        prob = om.Problem(reports=False)
+        prob.model.add_subsystem("wing", Geometry(surface=s))
+        return prob
+
+    second = _stage_runner(build_bad)
+    second["first_stage"] = first["stage"]
+    return second
+
+
+def _warn_mesh_key_twice():
+    _warn_mesh_key()
+    return _warn_mesh_key()
+
+
 # name -> (callable, required exception type or None (= any exception is fine), needs_warning substring or None)
 ERROR_TABLE = {
     "ground_effect_without_symmetry": (_bad_ground_no_symmetry, "ValueError", None),
@@ -237,6 +277,9 @@ ERROR_TABLE = {
     "full_mesh_both": (lambda: _bad_full_mesh("both"), "ValueError", None),
     "unknown_mesh_dict_key": (_warn_mesh_key, "WARN", "num_z"),
     "unknown_surface_dict_key": (_warn_surface_key, "WARN", "colour"),
+    "unknown_surface_dict_key_second_problem": (_warn_surface_key_second_problem, "WARN", "colour"),
+    "unknown_key_added_to_reused_dict": (_warn_key_added_to_reused_dict, "WARN", "colour"),
+    "unknown_mesh_dict_key_second_call": (_warn_mesh_key_twice, "WARN", "num_z"),
 }
 
 
@@ -377,6 +420,8 @@ class Tenant:
     def step(self, op, obs_out, stats):
         k = op["op"]
         if k == "build":
+            if zoo.SHARE is not None:
+                zoo.SHARE["ctx"] = core.digest({a: b for a, b in self.t["spec"].items() if a != "mode"})
             self.model = zoo.build(self.t["spec"])
             self.user0 = zoo.user_array_digests(self.model.user_dicts)
             with _quiet():
@@ -447,14 +492,14 @@ class Tenant:
         return None
 
 
-def _run_isolated(tenant):
-    """The tenant's op list executed alone (called inside a pristine forked child)."""
+def _run_isolated(tenant, op_indices):
+    """The tenant's executed ops, alone (called inside a pristine forked child)."""
     zoo.SHARE = None
     t = Tenant(tenant)
     out = []
     stats = {}
-    for op in tenant["ops"]:
-        t.step(op, out, stats)
+    for i in op_indices:
+        t.step(tenant["ops"][i], out, stats)
     return out
 
 
@@ -547,10 +592,13 @@ def execute(case, stop_at_first=True, collect=True, known=None):
 
     # 1. isolated references, each in its own pristine forked child (forked before this process builds anything)
     iso = {}
+    iso_key = {}
     for t in case["tenants"]:
         src = t["twin_of"] if t.get("twin_of") is not None else t["id"]
-        if src not in iso:
-            iso[src] = core.in_child(_run_isolated, case["tenants"][src], timeout=TASK_TIMEOUT)
+        idx = tuple(s[2] for s in case["script"] if s[0] == "t" and s[1] == t["id"])
+        iso_key[t["id"]] = (src, idx)
+        if (src, idx) not in iso:
+            iso[(src, idx)] = core.in_child(_run_isolated, case["tenants"][src], idx, timeout=TASK_TIMEOUT)
     # 2. the interleaved program, in this (so far pristine) process
     stats = res["stats"]
     user_viol = []
@@ -571,8 +619,7 @@ def execute(case, stop_at_first=True, collect=True, known=None):
         return res
     # 3. compare
     for t in case["tenants"]:
-        src = t["twin_of"] if t.get("twin_of") is not None else t["id"]
-        bad, n, bit = _cmp_obs(prog[t["id"]], iso[src], RT_ISOLATED)
+        bad, n, bit = _cmp_obs(prog[t["id"]], iso[iso_key[t["id"]]], RT_ISOLATED)
         res["n_obs"] += n
         res["n_bit_identical"] += bit
         log.add("tenant", t["id"], t["spec"]["zoo"], n, bit, core.digest([(k, d) for k, d in prog[t["id"]]]))
